@@ -210,6 +210,11 @@ class Sim:
             return runnable[0]
         self.stats["decisions_gt1"] += 1
         kind = self.policy["kind"]
+        if kind == "target":
+            # completion-order targeting: the engine ranks the tasks (lowest
+            # first, ties by creation); no draw from the tape is needed
+            rank = self.policy["rank"]
+            return min(runnable, key=lambda t: (rank(t), t.idx))
         if kind == "pct":
             pts = self.policy.get("points", ())
             if self.steps in pts and cur is not None:
